@@ -89,17 +89,24 @@ func factsDeliver() {
 	// an upgrade reports, and the responder returns the error
 	{
 		okH, okR := false, false
+		// the reporting method, whatever it is called: the wsHandshakeHandler method whose body is a select sending on ws.finished
+		rep := "done"
+		for key, f := range pkgs[sv].funcs {
+			if strings.HasPrefix(key, "wsHandshakeHandler.") && f.Body != nil && strings.Contains(show(f.Body), "case ws.finished <- err:") {
+				rep = strings.TrimPrefix(key, "wsHandshakeHandler.")
+			}
+		}
 		if h := fnOf(sv, "wsHandshakeHandler.ServeHTTP"); h != nil {
 			evs := rawEvents(h)
 			iUp := idx(evs, 0, "assign", `:= upgrader\.Upgrade\(`)
 			iErr := idx(evs, iUp, "if", `^err != nil$`)
 			iEnd := matchingEnd(evs, iErr)
-			okH = iUp >= 0 && iErr > iUp && iEnd > iErr && countIn(evs, iErr, iEnd, "call", `^ws\.done\(err\)$`) == 1 &&
-				idx(evs, iEnd, "call", `^ws\.done\(nil\)$`) > iEnd
+			okH = iUp >= 0 && iErr > iUp && iEnd > iErr && countIn(evs, iErr, iEnd, "call", `^ws\.`+rep+`\(err\)$`) == 1 &&
+				idx(evs, iEnd, "call", `^ws\.`+rep+`\(nil\)$`) > iEnd
 		}
 		if mr := fnOf(sv, "WebSocket.makeResponder"); mr != nil {
 			t := show(mr.Body)
-			okR = strings.Contains(t, "state == http.StateClosed") && strings.Contains(t, "handler.done(errWsNotUpgraded)") &&
+			okR = strings.Contains(t, "state == http.StateClosed") && strings.Contains(t, "handler."+rep+"(errWsNotUpgraded)") &&
 				strings.Contains(t, "if err = <-handler.finished; err != nil") && strings.Contains(t, "originalConn.Close()")
 		}
 		boolFact(g, "wsResponderReportsFailedUpgrade", okH && okR, "WebSocket responder: a failed or never attempted upgrade is reported and the responder returns an error")
